@@ -5,7 +5,7 @@
 
 const char *g_proto_names[3] = { "tlcp", "tls12", "tls13" };
 const char *g_fault_names[F_NKINDS] = {
-	"none", "flip", "drop", "dup", "swap", "replay", "trunc", "extend", "inject", "mut", "evil", "crash"
+	"none", "flip", "drop", "dup", "swap", "replay", "trunc", "extend", "inject", "mut", "evil", "crash", "afail"
 };
 
 int proto_const(int p)
@@ -25,6 +25,7 @@ static const struct { const char *name; size_t off; } g_fields[] = {
 	F(op), F(op_count), F(efail_node), F(efail_at), F(efail_rest), F(efail_errno), F(eburst_at), F(eburst_k), F(eburst_val),
 	F(ntasks), F(preempt_mean), F(pct_d),
 	F(victim), F(extra_roots), F(tz), F(early_close),
+	F(afail_node), F(afail_at), F(afail_rest),
 };
 #define NFIELDS (sizeof(g_fields) / sizeof(g_fields[0]))
 
@@ -36,6 +37,7 @@ void plan_init(Plan *p, const char *scenario)
 	p->stay_num = 1; p->stay_den = 2;
 	p->efail_node = -1; p->efail_at = -1; p->eburst_at = -1; p->efail_errno = 5;
 	p->jump_node = -1;
+	p->afail_node = -1; p->afail_at = -1;
 	p->defect = 0;
 }
 
